@@ -43,6 +43,10 @@ func Encoder_encodeWithoutHint(content string, ecLevel decoder.ErrorCorrectionLe
 }
 
 func Encoder_encode(content string, ecLevel decoder.ErrorCorrectionLevel, hints map[gozxing.EncodeHintType]interface{}) (*QRCode, gozxing.WriterException) {
+	if _, e := decoder.ErrorCorrectionLevel_ForBits(uint(ecLevel.GetBits())); e != nil {
+		return nil, gozxing.NewWriterException("invalid error correction level: %d", int(ecLevel))
+	}
+
 	// Determine what character encoding has been specified by the caller, if any
 	encoding := Encoder_DEFAULT_BYTE_MODE_ENCODING
 	encodingHint, hasEncodingHint := hints[gozxing.EncodeHintType_CHARACTER_SET]
@@ -139,6 +143,9 @@ func Encoder_encode(content string, ecLevel decoder.ErrorCorrectionLevel, hints 
 	headerAndDataBits.AppendBitArray(dataBits)
 
 	ecBlocks := version.GetECBlocksForLevel(ecLevel)
+	if ecBlocks == nil {
+		return nil, gozxing.NewWriterException("invalid error correction level: %d", int(ecLevel))
+	}
 	numDataBytes := version.GetTotalCodewords() - ecBlocks.GetTotalECCodewords()
 
 	// Terminate the bits properly.
@@ -317,6 +324,9 @@ func willFit(numInputBits int, version *decoder.Version, ecLevel decoder.ErrorCo
 	numBytes := version.GetTotalCodewords()
 	// getNumECBytes = 130
 	ecBlocks := version.GetECBlocksForLevel(ecLevel)
+	if ecBlocks == nil {
+		return false // unknown error correction level: nothing fits
+	}
 	numEcBytes := ecBlocks.GetTotalECCodewords()
 	// getNumDataBytes = 196 - 130 = 66
 	numDataBytes := numBytes - numEcBytes
